@@ -18,7 +18,11 @@ EXPLANATION = ("For each of the engine's adapter call sites: r1 the vertex id us
                "endpoint type, Recursive::coerce_to); r4 make_edge_parameters is abstractly evaluated over every combination "
                "of declared parameter (nullable?, default?) x supplied (absent / valid / ill-typed) plus an undeclared "
                "argument: the result holds exactly the declared names with explicit, default or null values, otherwise "
-               "the matching errors.")
+               "the matching errors. r5: expand_recursive_edge is abstractly evaluated for depth 1..5 x implicit coercion "
+               "present/absent x destination coercion present/absent, with the context iterator abstracted to the type of its "
+               "active vertices (source type on entry; the edge's endpoint type after an expansion; coerce_to only after a "
+               "resolve_coercion from the current type whose closure suspends the contexts that cannot be coerced): the type "
+               "named in every resolve_neighbors and the source type of every resolve_coercion equal that typestate.")
 ASSUMPTIONS = ["that active vertices are instances of the named type rests on C11 (well-formed IR) and on the adapter returning "
                "vertices of the declared edge type", "Type model / collection model as in C12"]
 
@@ -57,6 +61,120 @@ def activation_vid(sc, ctx_arg):
             return None
         break
     return None
+
+
+class IterState:
+    """Typestate of a context iterator inside expand_recursive_edge: what type its active (non-suspended) vertices have."""
+
+    def __init__(self, kind, vtype, to=None, from_ok=True):
+        self.kind, self.vtype, self.to, self.from_ok = kind, vtype, to, from_ok
+
+    def __repr__(self):
+        return "IterState(%s, active vertices: %s)" % (self.kind, self.vtype)
+
+
+class CtxV:
+    def __init__(self, active):
+        self.active = active
+
+
+def recursion_typestate(C, R, er):
+    """r5: abstract evaluation of expand_recursive_edge over depth x coerce_to x coerced_from_type with the iterator abstracted to
+    the type of its active vertices: every expansion names that type, every re-coercion starts from it."""
+    R.rule("r5", "recursion typestate: at every depth the type named to resolve_neighbors / resolve_coercion is the type of the active vertices "
+                 "(edge endpoint type after an expansion, coerce_to only after a suspending re-coercion)")
+    where = C.loc(er["sp"])
+    I = S.intrinsics()
+    d = A.deref
+    base_map = I["core::iter::traits::iterator::Iterator::map"]
+    log = []
+
+    def it_of(v, what):
+        v = d(v)
+        if not isinstance(v, IterState) or v.kind != "ctx":
+            raise A.Unsupported("%s receives %r, not a context iterator" % (what, v))
+        return v
+
+    def imap(ip, n, a):
+        v = d(a[0])
+        if not isinstance(v, IterState):
+            return base_map(ip, n, a)
+        if v.kind == "ctx":
+            return v                      # per-context bookkeeping closures: activation is r1's subject
+        outs = {}
+        for can in (True, False):
+            r = d(S.call_f(ip, a[1], [A.Tuple([CtxV(True), can])]))
+            if not isinstance(r, CtxV):
+                raise A.Unsupported("coercion closure returns %r" % (r,))
+            outs[can] = r.active
+        if not outs[True]:
+            raise A.Unsupported("coercion closure suspends the contexts that can be coerced")
+        narrowed = not outs[False] and v.from_ok
+        return IterState("ctx", v.to if narrowed else v.vtype)
+    I["core::iter::traits::iterator::Iterator::map"] = imap
+    I["ensure_suspended"] = lambda ip, n, a: CtxV(False)
+    I["alloc::boxed::Box::<T>::new"] = lambda ip, n, a: a[0]
+
+    def coercion(ip, n, a):
+        it = it_of(a[1], "resolve_coercion")
+        frm, to = d(a[2]), d(a[3])
+        log.append(("coercion", frm, it.vtype))
+        return IterState("pairs", it.vtype, to=to, from_ok=(frm == it.vtype))
+    I["trustfall_core::interpreter::Adapter::resolve_coercion"] = coercion
+    cfg = {}
+
+    def expansion(ip, n, a):
+        it = it_of(a[-1], "perform_one_recursive_edge_expansion")
+        log.append(("neighbors", d(a[3]), it.vtype))
+        return IterState("ctx", cfg["endpoint"])
+    I[EXE + "perform_one_recursive_edge_expansion"] = expansion
+    I[EXE + "post_process_recursive_expansion"] = lambda ip, n, a: a[0]
+    I["trustfall_core::interpreter::hints::ResolveInfo::new"] = lambda ip, n, a: A.Struct("ResolveInfo", {"query": a[0]})
+    I["trustfall_core::interpreter::hints::ResolveInfo::into_inner"] = lambda ip, n, a: d(a[0]).fields["query"]
+
+    cases = 0
+    bad = None
+    names = [p.get("name") for p in er["params"]]
+    try:
+        for depth, co, cf in itertools.product(range(1, 6), (False, True), (False, True)):
+            del log[:]
+            cfg["endpoint"] = "ToBase" if cf else "ToT"
+            vals = {
+                "adapter": A.Sym("adapter"), "component": A.Sym("component"), "edge_id": A.Sym("eid"), "edge_name": "edge",
+                "edge_parameters": A.Sym("params"),
+                "carrier": A.Struct("QueryCarrier", {"query": S.some(A.Sym("query"))}),
+                "expanding_from": A.Struct(IR + "IRVertex", {"vid": A.Sym("from_vid"), "type_name": "FromT", "coerced_from_type": S.none()}),
+                "expanding_to": A.Struct(IR + "IRVertex", {"vid": A.Sym("to_vid"), "type_name": "ToT",
+                                                           "coerced_from_type": S.some("ToBase") if cf else S.none()}),
+                "recursive": A.Struct(IR + "Recursive", {"depth": depth, "coerce_to": S.some("CoT") if co else S.none()}),
+                "iterator": IterState("ctx", "FromT"),
+            }
+            if set(names) != set(vals):
+                R.fail("r5", "anchor:params", where, "expand_recursive_edge's parameters changed (%s): update the typestate model" % names)
+                return
+            A.Interp(C, I, max_steps=200000).call_fn(er, [vals[p] for p in names])
+            cases += 1
+            nb = [x for x in log if x[0] == "neighbors"]
+            if not nb and bad is None:
+                bad = (depth, co, cf, "no expansion is performed", "")
+            for i, (what, named, have) in enumerate(log):
+                if named != have and bad is None:
+                    k = 1 + sum(1 for x in log[:i] if x[0] == "neighbors")
+                    bad = (depth, co, cf, "the %s call of expansion #%d names type `%s`" % (
+                        "resolve_neighbors" if what == "neighbors" else "resolve_coercion", k, named),
+                        "but the active vertices at that point are only known to be `%s`" % have)
+    except A.Unsupported as e:
+        R.fail("r5", "unanalysable", where, "cannot evaluate expand_recursive_edge over the iterator typestate: %s (fail closed)" % e)
+        return
+    except A.PanicReached as e:
+        R.fail("r5", "panic", where, "expand_recursive_edge panics in the typestate evaluation: %s" % e.what)
+        return
+    R.floor("r5", "depth x coerce_to x coerced_from_type cases", cases, 20)
+    R.check(bad is None, "r5", "recursive/typestate", where,
+            "@recurse(depth: %s) with implicit coercion %s and destination coercion %s: %s %s (FromT = source vertex type, ToT/ToBase = the "
+            "edge's endpoint type, CoT = Recursive.coerce_to): the adapter is handed vertices that are not instances of the type it is told"
+            % ((bad or [0])[0], "present" if bad and bad[1] else "absent", "present" if bad and bad[2] else "absent",
+               bad and bad[3], bad and bad[4]), {"cases": cases})
 
 
 def run(ctx, R):
@@ -199,6 +317,9 @@ def run(ctx, R):
             dst = [p.get("name") for p in er["params"] if "IRVertex" in (C.S(p.get("ty")) or "")]
             R.check(len(dst) == 2 and dst[1] in e and dst[0] not in e.replace(dst[1], ""), "r3", "recursive/endpoint-is-destination", C.loc(site[0]["sp"]),
                     "the endpoint type must be read from the destination vertex `%s` (got %s)" % (dst[1:] and dst[1], e))
+
+    if er is not None:
+        recursion_typestate(C, R, er)
 
     # r4: make_edge_parameters
     mk = C.fn("trustfall_core::frontend::make_edge_parameters")
